@@ -109,3 +109,14 @@ def mediaHygiene (cfg : Config) : Bool :=
 
 end Spec
 end Restful
+
+namespace Restful
+namespace Jsr
+
+/-- RouterJSR311 compiles the root path of every service, also of one without routes (for which
+    `Config.wfTemplates` says nothing): such a root must read as a template too -/
+def rootsRead (cfg : Config) : Bool :=
+  cfg.services.all (fun s => !s.routes.isEmpty || (Spec.readTemplateJ s.rootPath []).isSome)
+
+end Jsr
+end Restful
